@@ -203,6 +203,7 @@ package schedule
 //@ at call s.startNext assert [the-next-part-starts-at-the-finish-time-of-the-drained-part] arg(currentFinishTime) == result_of(s.scheds[0].Next, 0) && !result_of(s.scheds[0].Next, 1)
 //@ ensures [exact-when-known-negative-only-when-unknown] result == compositeLeft(s)
 //@ ensures [parts-only-dropped-from-the-front] len(s.scheds) <= old(len(s.scheds))
+//@ ensures [asking-what-is-left-takes-no-token] ev(token) == old(ev(token))
 
 //@ func (s *compositeSchedule) Next
 //@ props C02 C12 C04 C03
